@@ -14,7 +14,9 @@ exit 0: property held on everything explored.  exit 1: `VIOLATION property=<id> 
 """
 import fcntl, json, os, re, subprocess, sys, time
 
-VERIF = "/verif"
+# the directory this script's copy of the machinery lives in: /verif, or a snapshot of it (`vp run`)
+VERIF = os.environ.get("VERIF_ROOT") or os.path.dirname(os.path.dirname(os.path.abspath(__file__)))
+os.environ["VERIF_ROOT"] = VERIF
 LEAN = f"{VERIF}/lean"
 HARNESS = f"{VERIF}/harness"
 ALLOWED_AXIOMS = {"propext", "Classical.choice", "Quot.sound"}
